@@ -24,6 +24,7 @@ ADDED = {
     "C15": " Added: the same detector object run twice, or first on a differently folded copy of the mesh.",
     "C16": " Added: every other cut of a case on the SAME mesh object; an icosphere stretched along z.",
     "C17": " Added: the same mesh object embedded first with the other weights; interior edges of cotangent weight exactly zero are classed separately (open finding).",
+    "C18": " Added: the same solver object first run with smoothing, then re-optimised with the option changed; the exact extension is computed for at most 8 free faces (32-bit integers).",
     "C19": " Added: nets of degree 0 in either direction, parameters outside [0,1] by 1e-9, samples' normals after stored face normals and a quarter turn.",
 }
 
